@@ -3,6 +3,7 @@ package rules
 import (
 	"fmt"
 	"go/types"
+	"sort"
 	"strings"
 
 	"golang.org/x/tools/go/ssa"
@@ -281,6 +282,63 @@ func runC01(c *Ctx) {
 		checkRejectSilent(c, d)
 	})
 	c.R.Analysed["accept_paths"] = npaths
+	checkHandshakeMatcher(c)
+}
+
+// checkHandshakeMatcher is R01.8: the SACK handshake state (initial sequence / ack numbers every later match is relative to)
+// is only taken from a SYN-ACK on the probed flow: outer pair = (target, local), ports, SYN and ACK set, SACK-permitted seen.
+func checkHandshakeMatcher(c *Ctx) {
+	R := c.R
+	f := c.P.Func("(*sack.sackDriver).handleHandshake")
+	if f == nil {
+		R.Fail("R01.8", "sack.handleHandshake#anchor", 0, "", "anchor (*sack.sackDriver).handleHandshake no longer resolves")
+		return
+	}
+	fn := core.FuncName(f)
+	roles := roleTable["sack.sackDriver"]
+	rps, _ := core.ReturnPaths(c.P, f, 5000)
+	n := 0
+	for _, rp := range rps {
+		sets := false
+		for _, b := range rp.Path.Blocks {
+			for _, in := range b.Instrs {
+				if st, ok := in.(*ssa.Store); ok {
+					if fa, ok := st.Addr.(*ssa.FieldAddr); ok && fa.X == ssa.Value(f.Params[0]) && core.FieldName(fa) == "state" {
+						sets = true
+					}
+				}
+			}
+		}
+		if !sets {
+			continue
+		}
+		n++
+		eqs := pathEqs(rp.Atoms)
+		var missing []string
+		for name, chk := range map[string]struct {
+			pk   func(*core.Term) bool
+			role string
+		}{"outer source = target": {isOuterSrcAddr, roles.TargetAddr}, "outer destination = local": {isOuterDstAddr, roles.LocalAddr},
+			"TCP source port = target port": {isTCPSrcPort, roles.TargetPort}, "TCP destination port = local port": {isTCPDstPort, roles.LocalPort}} {
+			if findEq(eqs, chk.pk, chk.role) == nil {
+				missing = append(missing, name)
+			}
+		}
+		as := flagAssignments(rp.Atoms)
+		for _, a := range as {
+			if !(a["SYN"] && a["ACK"]) {
+				missing = append(missing, "SYN and ACK set")
+				break
+			}
+		}
+		f1, s1 := atomTrue(rp.Atoms, func(t *core.Term) bool { return isTransportEq(t, "LayerTypeTCP") })
+		if !(f1 && s1) {
+			missing = append(missing, "transport layer is TCP")
+		}
+		sort.Strings(missing)
+		R.Check(len(missing) == 0, "R01.8", fn+"#handshake-accept", rp.Ret.Pos(), fn, "handshake state is taken only from a SYN-ACK on the probed flow", "handshake state can be set from a packet without: "+strings.Join(missing, "; ")+" (every later SACK/ICMP match is relative to these sequence numbers)")
+	}
+	R.Floor("R01.8:state-setting-paths", n, 1)
 }
 
 func bitsOf(t types.Type) int { b, _ := core.IntBits(t); return b }
